@@ -204,10 +204,10 @@ def judge(ctx, traces, label):
 def run(ctx):
     quick = ctx.tier == 'quick'
     if quick:
-        cases = model_and_cases(ctx, 'OciAuthFileMC_quick.cfg', '<=3 of 6 key forms for h1 x 4 credential kinds, h2 key on/off, 3 helper setups; '
+        cases = model_and_cases(ctx, 'OciAuthFileMC_quick.cfg', '<=3 of 6 key forms for h1 x 4 credential kinds (the empty entry {} included), h2 key and helper setup in 4 combinations; '
                                 '4 tables x per-host helper {absent, empty, A} x store on/off x 5x5 helper behaviours', 300)
     else:
-        cases = model_and_cases(ctx, 'OciAuthFileMC_thorough.cfg', '<=3 of 6 key forms for h1 x 9 credential kinds (undecodable auth fields included), '
+        cases = model_and_cases(ctx, 'OciAuthFileMC_thorough.cfg', '<=3 of 6 key forms for h1 x 9 credential kinds (empty and email-only entries, undecodable auth fields included), '
                                 'h2 key on/off, 3 helper setups; helper family as in quick', 600)
         # sensitivity control: with the two table tests in the order authfile.go had them (F13) TLC must
         # find a visiting order that changes the answer
